@@ -45,9 +45,15 @@ def judge(case):
 
     libexc = lib_exceptions()
     out = core.Outcome()
-    num, sub, ver, pad = case["num"], case.get("sub"), case.get("ver", 0), case.get("pad", 0)
-    payload = build(num, sub, ver, pad, case["tail"])
-    want = f"4076_{sub:03d}" if num == 4076 else str(num)
+    if "payload" in case:  # a given payload: number / sub-type are read back with the reference
+        payload = case["payload"]
+        want = pinned.ref_identity(payload)
+        num = int(want[:4]) if want.startswith("4076_") else int(want)
+        sub = int(want[5:]) if want.startswith("4076_") else None
+    else:
+        num, sub, ver, pad = case["num"], case.get("sub"), case.get("ver", 0), case.get("pad", 0)
+        payload = build(num, sub, ver, pad, case["tail"])
+        want = f"4076_{sub:03d}" if num == 4076 else str(num)
     core.require(pinned.ref_identity(payload) == want, "C15 reference identity")
     defined = (
         want in RTCM_PAYLOADS_GET or want in RTCM_PAYLOADS_GET_MSM or want in RTCM_PAYLOADS_GET_IGS
@@ -115,6 +121,20 @@ def cases(tier):
         if num % 16 == 7 or num in (0, 4095, 1070, 1229, 1230, 1240, 4001, 4072):
             for t in (fp1021, b"\xff" * 1021, fp1021[:1020]):
                 yield {"num": num, "pad": 0, "tail": t}  # payloads of 1023 and 1022 bytes
+    # every implemented type with well-formed, populated payloads (not only the all-zero one)
+    from mc import corpus  # pylint: disable=import-outside-toplevel
+
+    for it in corpus.build(tier):
+        if it["kind"] == "ok":
+            yield {"payload": it["payload"], "must_parse": True, "name": it["name"]}
+    from mc import refmodel as R  # pylint: disable=import-outside-toplevel
+
+    for num in pinned.MSM_NUMBERS:  # satellites present, no cell selected
+        try:
+            pl, _o, _n = R.build(str(num), {"DF394": (1 << 63) | (1 << 20), "DF395": 1 << 30, "DF396": 0}, "fp")
+            yield {"payload": pl, "must_parse": True, "name": f"{num}/no-cells"}
+        except Exception:  # pylint: disable=broad-except
+            pass
     for sub in range(256):
         if sub % 16 == 8 or sub in (0, 200, 255):
             yield {"num": 4076, "sub": sub, "ver": 0, "pad": 0, "tail": fp1021[:1020]}
